@@ -1658,7 +1658,9 @@ func (c *Conn) executeBatch(ctx context.Context, batch *Batch) *Iter {
 		}
 	}
 
-	framer, err := c.exec(batch.Context(), req, batch.trace)
+	// ctx is batch.Context() or derived from it: the executor cancels it once
+	// the caller has its result, so that losing speculative executions stop
+	framer, err := c.exec(ctx, req, batch.trace)
 	if err != nil {
 		return &Iter{err: err}
 	}
